@@ -12,7 +12,7 @@ From Coq Require Import List Arith NArith Bool Lia Sorted.
 From NngV Require Import Gen.Consts Base.ListX Base.Bytes Codec.Staged Codec.IovModel Codec.IovProofs
   Codec.SpFrameModel Codec.SpFrameProofs Codec.SpNegoProofs Codec.SpHeaderProofs
   Msg.MsgModel Msg.MsgSpec Msg.MsgProofs Codec.InprocModel Codec.InprocProofs
-  Codec.WsFrameModel Codec.WsMsgModel Codec.WsProofs Proto.Common Proto.ReqRepBacktrace.
+  Codec.WsFrameModel Codec.WsMsgModel Codec.WsProofs Codec.WsBpModel Codec.WsBpProofs Proto.Common Proto.ReqRepBacktrace.
 Import ListNotations.
 Local Open Scope N_scope.
 
@@ -248,6 +248,26 @@ Proof.
 Qed.
 Print Assumptions ws_message_roundtrip.
 
+(* back-pressure: receivers come and go while frames arrive.  With the gate of
+   ws_start_read as written (the generated constant C01_WS_READ_GATE_RXQ, tied
+   below), for ANY interleaving of frame arrivals and receive requests the
+   messages handed over are a prefix of the FIN-delimited groups of the frames
+   that arrived: the boundary of a message does not depend on whether a
+   receiver was waiting.  (Frame level; data frames of well-formed sequences.) *)
+Theorem ws_boundaries_independent_of_receivers : forall evs,
+  let D := snd (bp_run true bp_init evs) in
+  D = firstn (length D) (messages (arrived evs)).
+Proof. exact bp_boundaries_independent_of_receivers. Qed.
+Print Assumptions ws_boundaries_independent_of_receivers.
+
+(* the read-ahead variant of the gate merges messages that arrive while nobody
+   receives (why the gate matters) *)
+Theorem ws_readahead_gate_refuted :
+  let evs := [BRecv; BArrive (mkFr true [65]); BArrive (mkFr true [66]); BArrive (mkFr true [67]); BRecv; BRecv] in
+  snd (bp_run false bp_init evs) = [[65]; [66; 67]] /\ snd (bp_run true bp_init evs) = [[65]; [66]; [67]].
+Proof. exact bp_readahead_merges. Qed.
+Print Assumptions ws_readahead_gate_refuted.
+
 (* ------------------------------------------------------------------ consts *)
 Theorem c01_consts_match :
   MAX_IOV = NNI_AIO_MAX_IOV /\
@@ -255,7 +275,8 @@ Theorem c01_consts_match :
   MAX_STREAM_MSGSZ = C01_MAX_STREAM_MSGSZ /\ RECVMAXSZ_DEFAULT = C01_RECVMAXSZ_DEFAULT /\
   (NNG_ENOMEM, NNG_EPROTO, NNG_EMSGSIZE, NNG_ECLOSED, NNG_ECONNSHUT) =
     (C01_NNG_ENOMEM, C01_NNG_EPROTO, C01_NNG_EMSGSIZE, C01_NNG_ECLOSED, C01_NNG_ECONNSHUT) /\
-  sp_header 0 = C01_NEGO_HEADER /\ C01_RX_CHECKS_BEFORE_ALLOC = true /\ C01_IPC_TYPE_CHECK = true.
+  sp_header 0 = C01_NEGO_HEADER /\ C01_RX_CHECKS_BEFORE_ALLOC = true /\ C01_IPC_TYPE_CHECK = true /\
+  C01_WS_READ_GATE_RXQ = true.
 Proof. repeat split; reflexivity. Qed.
 Print Assumptions c01_consts_match.
 
